@@ -20,13 +20,16 @@ type controlResult struct {
 }
 
 type control struct {
-	name string
-	run  func(c *Ctx)
+	name    string
+	run     func(c *Ctx)
+	wantBad []string // every listed function must carry a VIOLATED obligation
 }
 
 var controls []control
 
-func addControl(name string, run func(c *Ctx)) { controls = append(controls, control{name, run}) }
+func addControl(name string, run func(c *Ctx), wantBad ...string) {
+	controls = append(controls, control{name, run, wantBad})
+}
 
 func controlDir() string {
 	if d := os.Getenv("VERIF_CTL"); d != "" {
@@ -67,8 +70,9 @@ func runControls() (r controlResult) {
 		nGood, nBad := 0, 0
 		fail := perr
 		for _, o := range c.Obs {
-			isBadFn := strings.Contains(o.Key, "ctl.bad") || strings.Contains(o.Key, ").bad") || strings.Contains(o.Key, "/bad")
-			isGoodFn := strings.Contains(o.Key, "ctl.good") || strings.Contains(o.Key, ").good") || strings.Contains(o.Key, "/good")
+			lk := strings.ToLower(o.Key)
+			isBadFn := strings.Contains(lk, "ctl.bad") || strings.Contains(lk, ").bad") || strings.Contains(lk, "/bad")
+			isGoodFn := strings.Contains(lk, "ctl.good") || strings.Contains(lk, ").good") || strings.Contains(lk, "/good")
 			switch {
 			case isBadFn && o.st == Violated:
 				nBad++
@@ -81,6 +85,22 @@ func runControls() (r controlResult) {
 				if isGoodFn {
 					fail += fmt.Sprintf(" unexpected %s on %s;", o.Status, o.Key)
 				}
+			}
+		}
+		for _, w := range ct.wantBad {
+			hit := false
+			for _, o := range c.Obs {
+				if o.st == Violated && strings.Contains(o.Key, w) {
+					hit = true
+				}
+			}
+			if !hit {
+				fail += " no violation reported for " + w + ";"
+			}
+		}
+		if os.Getenv("VERIF_SHOW_CONTROLS") != "" {
+			for _, o := range c.Obs {
+				fmt.Printf("  ctl %s %s %s\n", o.Status, o.Key, o.Detail)
 			}
 		}
 		if nBad == 0 {
